@@ -10,7 +10,7 @@
 From Coq Require Import NArith ZArith List Bool Permutation String.
 From PJ Require Import Base.Prelude gen.Consts Render.RText Render.RHtml Render.RJson Render.RModel Render.RGrammar
   Render.RSpec Render.RCheck Render.RUnrepaired Render.RProofsHtml Render.RProofsJson Render.RProofsDhtmlx
-  Render.RProofsNet Render.RProofsGantt Render.RProofsDoc Render.RProofsInject Render.RProofsC19.
+  Render.RProofsNet Render.RProofsGantt Render.RProofsDoc Render.RProofsInject Render.RProofsC19 Render.RProofsSections.
 Import ListNotations.
 
 (* Mermaid gantt: the reader finds, in the order of the layout, one task line per task with its id, its start
@@ -20,13 +20,19 @@ Theorem C19_gantt : forall clock cfg w, wbs_ok clock w = true -> cfg_ok cfg = tr
   extract_gantt (render_gantt clock cfg w) = Some (gantt_expected clock w).
 Proof. exact extract_render_gantt. Qed.
 
-(* the layout lists every task exactly once.  Proved for WBSs drawn without sections; with sections the tasks
-   are grouped by section in first-seen order (filter per distinct section) - that this regrouping is a
-   permutation of the tasks is stated, not proved *)
-Definition C19_gantt_each_task_once_statement : Prop :=
-  forall w, Permutation (map snd (gantt_layout (tasks_of w))) (tasks_of w).
+(* the layout lists every task exactly once: with sections the tasks are grouped by section in first-seen
+   order (filter per distinct section), and that regrouping is a permutation of the tasks - for any section
+   names; without sections the layout is the task list itself *)
+Theorem C19_gantt_each_task_once : forall w, Permutation (map snd (gantt_layout (tasks_of w))) (tasks_of w).
+Proof. intro w. exact (layout_permutation (tasks_of w)). Qed.
 
-Theorem C19_gantt_each_task_once_partial : forall w, sectioned (tasks_of w) = false ->
+Theorem C19_gantt_line_count : forall w, length (gantt_layout (tasks_of w)) = length (tasks_of w).
+Proof. intro w. exact (layout_length (tasks_of w)). Qed.
+
+Theorem C19_gantt_no_task_twice : forall w, NoDup (tasks_of w) -> NoDup (map snd (gantt_layout (tasks_of w))).
+Proof. intro w. exact (layout_NoDup (tasks_of w)). Qed.
+
+Theorem C19_gantt_unsectioned : forall w, sectioned (tasks_of w) = false ->
   map snd (gantt_layout (tasks_of w)) = tasks_of w.
 Proof. exact layout_unsectioned. Qed.
 
@@ -139,7 +145,10 @@ Example C19_nonvacuous :
 Proof. vm_compute. repeat split; reflexivity. Qed.
 
 Print Assumptions C19_gantt.
-Print Assumptions C19_gantt_each_task_once_partial.
+Print Assumptions C19_gantt_each_task_once.
+Print Assumptions C19_gantt_line_count.
+Print Assumptions C19_gantt_no_task_twice.
+Print Assumptions C19_gantt_unsectioned.
 Print Assumptions C19_net.
 Print Assumptions C19_net_count.
 Print Assumptions C19_json.
